@@ -24,9 +24,10 @@ def run_property(prop: str, repo: Path, tier: str, seed: int, write_evidence: bo
         ctx = Ctx(prop, repo, tier)
         ctx.quiet = quiet
         mod.run(ctx)
-        from .rules.common import check_decorators, check_params_stable
+        from .rules.common import check_decorators, check_overrides, check_params_stable
         check_params_stable(ctx)
         check_decorators(ctx)
+        check_overrides(ctx)
         extra = {}
         if tier == "thorough":
             if hasattr(mod, "thorough"):
